@@ -11,7 +11,7 @@ import time
 
 REPO = "/repo"
 
-FEATURES = ["std", "arbitrary", "proptest", "quickcheck", "rand", "rand-09", "num-traits", "serde", "rlp", "borsh"]
+FEATURES = ["std", "arbitrary", "proptest", "quickcheck", "rand", "rand-09", "num-traits", "serde", "rlp", "borsh", "bytemuck"]
 
 CARGO_TOML = """[package]
 name = "{name}"
@@ -40,6 +40,7 @@ arbitrary = "1"
 proptest = "1"
 quickcheck = "1"
 rand-09 = { version = "0.9", package = "rand" }
+bytemuck = "1.13"
 """
 
 
@@ -167,6 +168,17 @@ def ill_ctors(bits, limbs):
     return core, more
 
 
+POD_FORBIDDEN = [(1, 1), (7, 1), (63, 1), (65, 2), (100, 2), (160, 3), (200, 4), (255, 4), (257, 5), (1000, 16)]
+
+POD_TEMPLATE = """#![allow(unused, clippy::all)]
+fn need<T: bytemuck::Pod>() {{}}
+fn main() {{
+    need::<ruint::Uint<{bits}, {limbs}>>();
+    let v: ruint::Uint<{bits}, {limbs}> = bytemuck::cast([u64::MAX; {limbs}]);
+    println!("VALUE {{:?}}", v.as_limbs());
+}}
+"""
+
 ILL_TEMPLATE = """#![allow(unused, clippy::all)]
 const BITS: usize = {bits};
 const LIMBS: usize = {limbs};
@@ -201,6 +213,17 @@ def run_illformed(tier, ctx):
             name = f"ill_{b}_{l}_{cname}"
             bins[name] = ILL_TEMPLATE.format(bits=b, limbs=l, expr=expr)
             meta[name] = (b, l, cname)
+    # marker impls that assert "every bit pattern of the storage is a value": a width whose top limb has
+    # padding bits must not be bytemuck::Pod (a safe cast would then produce a non-canonical value)
+    for (b, l) in POD_FORBIDDEN:
+        name = f"ill_{b}_{l}_pod_impl"
+        bins[name] = POD_TEMPLATE.format(bits=b, limbs=l)
+        meta[name] = (b, l, "pod_impl")
+    pod_controls = {}
+    for (b, l) in ((64, 1), (256, 4)):
+        name = f"ctlpod_{b}_{l}"
+        bins[name] = POD_TEMPLATE.format(bits=b, limbs=l)
+        pod_controls[name] = f"pod_impl({b},{l})"
     # positive control: the same programs on a well-formed pair must compile, otherwise a
     # compile error above could be the probe's own fault
     controls = {}
@@ -236,6 +259,7 @@ def run_illformed(tier, ctx):
             return name, "runtime_panic", (line[-1] if line else err[-200:])[:200]
         return name, "other", f"rc={rc_} {err[-200:]}"
 
+    controls.update(pod_controls)
     control_failed = sorted(c for n, c in controls.items() if n not in arts)
     for c in control_failed:
         inconclusive.append(f"illformed-control-does-not-compile:{c}")
